@@ -3,7 +3,8 @@ from common import *
 
 CLAIMED = True
 LEVEL = 'proof'
-LEVEL_TEXT = ('Proof: 19 Coq theorems (coq/Properties/C11.v) over the Gallina model of RawData::load/store for RawU1..RawU32 in both '
+LEVEL_TEXT = ('Proof: 23 Coq theorems (coq/Properties/C11.v), for every usize width (the model is parameterised by the class Usize, usize::MAX >= 65535; '
+              'instances usize16/usize32/usize64), over the Gallina model of RawData::load/store for RawU1..RawU32 in both '
               'data orders and of RawDataIterator (coq/Model/Rawdata.v: bit_position, shift/mask expressions as written with u8 truncation, '
               'from/to_le/be_bytes, index.checked_mul(N), saturating nth, size_hint): store-then-load returns the value; every other '
               'pixel index loads the same value and every bit outside pixel i keeps its value (bit-level frame, with disjointness and '
@@ -13,12 +14,17 @@ LEVEL_TEXT = ('Proof: 19 Coq theorems (coq/Properties/C11.v) over the Gallina mo
               'nth(n) returns item n of the remainder and continues behind it (also when index+n saturates); size_hint equals the number '
               'of remaining items; any mix of next()/nth(k) behaves like the same calls on the item list. The single-byte facts are '
               'decided by vm_compute over the whole finite domain (3 widths x 2 orders x positions x 256 bytes x all values) and lifted to '
-              'buffers by list lemmas. The model is tied to the code by running the extracted model and the real functions on the same inputs.')
+              'buffers by list lemmas. raw_ok (v < 2^bits) is closed: new/from_u32 mask into it and load returns it (C11_new_is_raw, C11_load_is_raw), so any '
+              'u32 handed over through from_u32 round-trips to its masked value. C11_raw_load_eq_load bridges to the raw load of the C09 image model. '
+              'The model is tied to the code by running the extracted model (usize64 instance) and the real functions on the same inputs.')
 LEVEL_NOTE = ('Trusted: Coq kernel, extraction (ExtrOcamlBasic), the OCaml/Rust drivers; the hand-written model is validated by differential '
-              'testing on every run, not proved equal to the Rust source. usize is 64 bit (the harness target).')
-RULE = ('correspondence: load, store (result, all bytes afterwards, load after store), the collected iterator with its initial size_hint, and '
+              'testing on every run, not proved equal to the Rust source. The dynamic tie runs on the 64-bit harness target only; the 16- and 32-bit '
+              'instances are covered by the theorems and by the same source text.')
+RULE = ('correspondence: load, store (the value from_u32 built - observes the mask of every raw type incl. RawU24 -, result, all bytes afterwards, load after store; '
+        'one unmasked u32 per index), rd_big / rd_big_nth: single load / store / nth with neighbours and the list of changed bytes on rule-generated '
+        'buffers of 300..140000 bytes at indices around 2^8 and 2^16 and around the end, the collected iterator with its initial size_hint, and '
         'random mixes of next()/nth(k) with size_hint after every call, for 7 raw widths x 2 data orders x every buffer length 0..=L (L=6 quick, 10 '
-        'thorough) x 4 background byte patterns x every index 0..=pixels+1 plus indices on both sides of usize::MAX / bytes_per_pixel; '
+        'thorough) x 4 background byte patterns x every index 0..=pixels+1 plus indices on both sides of usize::MAX / bytes_per_pixel and around 2^8, 2^16, 2^24, 2^32; '
         'plus random buffers up to 40 bytes. Non-trivial = the model result is not none/empty. '
         'search (implementation only, against an independent bit-by-bit reference of the documented layout): p_rd_store = for every value '
         '(exhaustive up to 8 bpp, up to 16 bpp on selected cases, boundary+random above) store at every index, compare all bytes with the reference, '
@@ -39,6 +45,8 @@ PARTIAL = []
 #   RawU8 store with a clamped index (writes the last byte instead of Err)
 #   iterator: nth with wrapping_add (first only seen by correspondence -> p_rd_iter got the huge-skip section), size_hint branches
 #   swapped (= original defect b), size_hint ignoring the index
+# round 2: RawU24 MASK = u32::MAX; index truncated to u16 in bit_position; byte offset truncated to u16 in RawU16 load; index truncated to u8
+#   in RawU8 load; seeded C11-A (keep mask `!MASK << k`) and C11-B (nth not consuming past the end): all VIOLATION with a failing input
 # Not distinguishable by any observation (benign): `>= 8` -> `> 8` in size_hint (8 bpp gives len either way).
 
 BPPS = [1, 2, 4, 8, 16, 24, 32]
